@@ -1,5 +1,5 @@
 import Okane.Lemmas.C13Perm
-import Okane.Lemmas.C13CmdReport
+import Okane.Lemmas.C13CmdQuery
 /-!
 # C13 — same input, same output: runs are deterministic
 
@@ -28,7 +28,13 @@ its amounts, the amounts of the evaluated postings; price events up to the order
 `process`, with the same error (`C13_process`, `C13_process_relayout`), and the lines printed by `balance` (whole
 history and date ranges, no conversion), `accounts`, `register` are *equal* for related ledgers, so that the text of
 each command as a function of the entry list does not depend on any layout (`C13_balance_cmd`, `C13_accounts_cmd`,
-`C13_register_cmd`: instances of `C13_balance` / `C13_accounts` / `C13_register`).
+`C13_register_cmd`: instances of `C13_balance` / `C13_accounts` / `C13_register`).  With conversion (`-X`, up-to-date
+or historical, with date ranges) and for `eval`: the price repositories built from the logged events are the same
+maps even when `check_balance` named the sides of an implied exchange in opposite orders (`C13_price_repository`),
+`Ledger::balance` / `Ledger::eval` return the same balance / amount or the same error (`C13_balance_query`,
+`C13_eval_query`) provided the neighbour order of `compute_price_table` does not depend on the layout of the inner map
+(`OrdOK`: true of the sorted order, false of the raw hash order: `ordSorted_ok`, `ordId_not_ok`), hence
+`C13_balance_exchange_cmd`, `C13_eval_cmd`.
 -/
 set_option linter.unusedSectionVars false
 set_option linter.unusedSimpArgs false
@@ -570,6 +576,94 @@ example : ([(7, [(2, 10), (1, -3)]), (8, [(3, 5)])] : Balance Nat Nat) ≈ᵦ [(
   · by_cases h8 : 8 = a
     · subst h8; exact ⟨by simp [AMap.WF, AMap.keys], by decide⟩
     · simp [AMap.get?, h7, h8, OptRel]
+
+/-! ### with commodity conversion -/
+open Okane.Price Okane.Query
+
+/-- **C13_price_repository.**  The repository built from the price events two runs logged (the same events, each
+possibly with its two sides exchanged) and the same price-db events is the same map of maps. -/
+theorem C13_price_repository {κ : Type} [DecidableEq κ] {evs evs' db db' : List (PriceEvent κ)}
+    (he : LRel PEvEq evs evs') (hd : LRel PEvEq db db') :
+    ORel (· = ·) RepoEq (buildFrom evs db) (buildFrom evs' db') := buildFrom_meq he hd
+
+/-- the heart of it: `insert_price(x, y)` and `insert_price(y, x)` leave the same repository. -/
+theorem C13_insertPrice_swap {κ : Type} [DecidableEq κ] {b : Builder κ} (h : RepoEq b b) (src : Source) (date : Date)
+    (x y : SingleAmount κ) (hne : x.commodity ≠ y.commodity) :
+    ORel (· = ·) RepoEq (insertPrice b src ⟨date, x, y⟩) (insertPrice b src ⟨date, y, x⟩) :=
+  insertPrice_swap h src date x y hne
+
+/-- **`convert_amount`**: the same outcome for the same amount against the same repository. -/
+theorem C13_convertAmount {κ : Type} [DecidableEq κ] {cfg : Cfg κ} (hord : OrdOK cfg.ord) {repo repo' : Builder κ}
+    (h : RepoEq repo repo') {leK : κ → κ → Bool} (hoK : KeyOrder leK) {a a' : Amount κ} (ha : a ≈ₘ a') (T : κ)
+    (date : Date) : convertAmount cfg repo leK a T date = convertAmount cfg repo' leK a' T date :=
+  convertAmount_meq hord h hoK ha T date
+
+/-- **C13_balance_query.**  `Ledger::balance` (no conversion / up-to-date / historical, any date range) on related
+ledgers and repositories: the same balance, or the same error. -/
+theorem C13_balance_query {α κ : Type} [DecidableEq α] [DecidableEq κ] (prec : κ → Option Nat) {env env' : Env α κ}
+    (he : EnvEq env env') (hok : EnvOK env) {txns txns' : List (OutTxn α κ)} (ht : LRel TxnEq txns txns')
+    {raw raw' : Balance α κ} (hr : raw ≈ᵦ raw') (q : BalanceQuery κ) :
+    ORel (· = ·) (· ≈ᵦ ·) (Query.balance prec env txns raw q) (Query.balance prec env' txns' raw' q) :=
+  balance_meq prec he hok ht hr q
+
+/-- **C13_eval_query.**  `Ledger::eval`. -/
+theorem C13_eval_query {env env' : Env String String} (he : EnvEq env env') (hok : EnvOK env) {s s' : Store}
+    (hs : StoreEq s s') (expr : VExpr) (date : Date) (exchange : Option String) :
+    ORel (· = ·) (· ≈ₘ ·) (Query.eval env s expr date exchange) (Query.eval env' s' expr date exchange) :=
+  eval_meq he hok hs expr date exchange
+
+/-- **C13_balance_exchange_cmd**: `okane balance` with every option (`-X`, `--historical`, `--now`, `--start`,
+`--end`, a price db) on the model is a function of its inputs: an instance of `C13_balance_exchange`.  `cfg.pick`
+(the heap's pop order) is any function of the queue; `cfg.ord` any neighbour order that does not depend on the layout
+of the inner map. -/
+theorem C13_balance_exchange_cmd {cfg : Cfg String} (hord : OrdOK cfg.ord) {leA leK : String → String → Bool}
+    (hoA : KeyOrder leA) (hoK : KeyOrder leK) (showAcct : String → String) (showEntry : String → Rat → String) :
+    C13_balance_exchange (Orders := { π : Nat → ProcState → ProcState // Relayout π })
+      (Input := List Entry × List (PriceEvent String) × BalOpts)
+      (fun π x => balanceXCmd cfg leA leK showAcct showEntry π.1 x) :=
+  fun π₁ π₂ x => balanceXCmd_det hord hoA hoK showAcct showEntry π₁.2 π₂.2 x
+
+/-- **C13_eval_cmd**: `okane primitive eval`. -/
+theorem C13_eval_cmd {cfg : Cfg String} (hord : OrdOK cfg.ord) {leA leK : String → String → Bool}
+    (hoA : KeyOrder leA) (hoK : KeyOrder leK) (showEntry : String → Rat → String) :
+    C13_eval (Orders := { π : Nat → ProcState → ProcState // Relayout π }) (Input := EvalIn)
+      (fun π x => evalCmd cfg leA leK showEntry π.1 x) :=
+  fun π₁ π₂ x => evalCmd_det hord hoA hoK showEntry π₁.2 π₂.2 x
+
+/-- the neighbour order in use since fix b2e85da (the driver's `ordSorted`) satisfies the hypothesis … -/
+theorem ordSorted_string_ok : OrdOK (κ := String) (fun _ l => isortBy (fun a b => decide (a.1 ≤ b.1)) l) :=
+  ordSorted_ok keyOrder_string
+
+/-- … the raw hash order (the code before that fix) does not. -/
+theorem ordId_not_ok : ¬ OrdOK (κ := Nat) (fun _ l => l) := by
+  intro h
+  have := h 0 [(1, ⟨.ledger, []⟩), (2, ⟨.ledger, []⟩)] [(2, ⟨.ledger, []⟩), (1, ⟨.ledger, []⟩)]
+    ⟨by simp [AMap.WF, AMap.keys], List.Perm.swap _ _ _⟩
+  simp at this
+
+/-! non-vacuity: a ledger whose second transaction implies an exchange (10 ACME against 1000 USD); the reversed run
+logs the price event with its sides exchanged, and the two runs print the same converted balance. -/
+def exLedgerX : List Entry :=
+  exLedger ++ [ .txn { date := ⟨2024, 1, 5⟩, posts := [post "Assets:Broker" 10 "ACME", post "Assets:Bank" (-1000) "USD"] } ]
+
+def cfgSorted : Cfg String := ⟨64, fun _ _ _ _ => 0, fun _ l => isortBy (fun a b => decide (a.1 ≤ b.1)) l⟩
+
+example : (match processScr πid.1 {} 0 exLedgerX, processScr πrev.1 {} 0 exLedgerX with
+    | .ok st, .ok st' => decide (st.events.map (·.x.commodity) = ["ACME"] ∧ st'.events.map (·.x.commodity) = ["USD"])
+    | _, _ => false) = true := by decide +kernel
+
+example : balanceXCmd cfgSorted (fun a b => decide (a ≤ b)) (fun a b => decide (a ≤ b)) id showNat' πid.1
+      (exLedgerX, [], { exchange := some "USD", now := ⟨2024, 2, 1⟩ }) =
+    balanceXCmd cfgSorted (fun a b => decide (a ≤ b)) (fun a b => decide (a ≤ b)) id showNat' πrev.1
+      (exLedgerX, [], { exchange := some "USD", now := ⟨2024, 2, 1⟩ }) :=
+  balanceXCmd_det (π₁ := πid.1) (π₂ := πrev.1) ordSorted_string_ok keyOrder_string keyOrder_string id showNat'
+    πid.2 πrev.2 _
+
+example : evalCmd cfgSorted (fun a b => decide (a ≤ b)) (fun a b => decide (a ≤ b)) showNat' πid.1
+      ⟨exLedgerX, [], .amt ⟨false, 3, 0, none⟩ "ACME", ⟨2024, 2, 1⟩, some "USD"⟩ =
+    evalCmd cfgSorted (fun a b => decide (a ≤ b)) (fun a b => decide (a ≤ b)) showNat' πrev.1
+      ⟨exLedgerX, [], .amt ⟨false, 3, 0, none⟩ "ACME", ⟨2024, 2, 1⟩, some "USD"⟩ :=
+  evalCmd_det (π₁ := πid.1) (π₂ := πrev.1) ordSorted_string_ok keyOrder_string keyOrder_string showNat' πid.2 πrev.2 _
 
 end Commands
 end Okane.C13
